@@ -60,6 +60,8 @@ Lemma balance_region_filters_ok : Gen_C11.balance_region_filters =
    "filter.NewRegionScoreFilter(s.GetName(), plan.source, plan.cluster.GetOpts())"; "filter.NewSpecialUseFilter(s.GetName())";
    "&filter.StoreStateFilter{ActionScope: s.GetName(), MoveRegion: true}"].
 Proof. reflexivity. Qed.
+Lemma balance_region_new_peer_ok : Gen_C11.balance_region_new_peer = "&metapb.Peer{StoreId: plan.target.GetID(), Role: oldPeer.Role}".
+Proof. reflexivity. Qed.
 Lemma skel_transferPeer_ok : Gen_C11.skel_transferPeer =
   [Call "NewCandidates"; Call "FilterTarget"; Call "Sort"; ForE [Call "shouldBalance"; Call "GetStorePeer"; Call "CreateMovePeerOperator"; IfE "err != nil" [Ret] []; Ret]; Ret].
 Proof. reflexivity. Qed.
